@@ -118,7 +118,10 @@ type AspectSpec struct {
 // Fault makes the provider double fail the n-th lookup (0-based, counted per scenario run).
 type Fault struct {
 	Lookup int    `json:"lookup"`
-	Text   string `json:"text"`
+	Text   string `json:"text,omitempty"`
+	// Aspect, if set, makes the provider return this (failing) aspect double at
+	// that lookup instead of an error.
+	Aspect *AspectSpec `json:"aspect,omitempty"`
 }
 
 type Scenario struct {
